@@ -1,5 +1,896 @@
-From Coq Require Import ZArith List Bool Lia.
+(* Lemmas about Model/HourlyPrep.v (C17). *)
+From Coq Require Import ZArith List Bool Lia ZifyBool FMapPositive.
 From V Require Import Model.HourlyPrep.
 Import ListNotations.
 Open Scope Z_scope.
-Lemma stub_l : STEP = 60. Proof. reflexivity. Qed.
+
+Ltac Zify.zify_post_hook ::= Z.to_euclidean_division_equations.
+
+(* ------------------------------------------------------------------ cells *)
+Lemma present_true : forall {B} (o : option B), present o = true <-> o <> None.
+Proof. intros B [b|]; cbn; split; congruence. Qed.
+Lemma present_false : forall {B} (o : option B), present o = false <-> o = None.
+Proof. intros B [b|]; cbn; split; congruence. Qed.
+Lemma missing_true : forall {B} (o : option B), missing o = true <-> o = None.
+Proof. intros B [b|]; cbn; split; congruence. Qed.
+
+(* ------------------------------------------------------------------ the hourly grid *)
+Lemma grid_from_In : forall n lo t,
+  In t (grid_from n lo) <-> exists k, 0 <= k < Z.of_nat n /\ t = lo + STEP * k.
+Proof.
+  induction n as [|n IH]; intros lo t; cbn [grid_from In].
+  - split; [tauto | intros [k [H _]]; lia].
+  - rewrite IH. split.
+    + intros [E | [k [Hk E]]].
+      * exists 0. lia.
+      * exists (k + 1). unfold STEP in *. lia.
+    + intros [k [Hk E]]. destruct (Z.eq_dec k 0) as [K | K].
+      * left. subst k. lia.
+      * right. exists (k - 1). unfold STEP in *. lia.
+Qed.
+
+Lemma grid_In : forall lo hi t,
+  In t (grid lo hi) <-> lo <= t <= hi /\ (t - lo) mod STEP = 0.
+Proof.
+  intros lo hi t. unfold grid. rewrite grid_from_In. unfold STEP. split.
+  - intros [k [Hk E]]. subst t. split; [lia|].
+    replace (lo + 60 * k - lo) with (k * 60) by lia. apply Z_mod_mult.
+  - intros [[H1 H2] M]. exists ((t - lo) / 60).
+    lia.
+Qed.
+
+Lemma grid_from_length : forall n lo, length (grid_from n lo) = n.
+Proof. induction n; intros; cbn; auto. Qed.
+
+Lemma grid_from_nth : forall n lo i a,
+  nth_error (grid_from n lo) i = Some a -> a = lo + STEP * Z.of_nat i.
+Proof.
+  induction n as [|n IH]; intros lo i a H.
+  - destruct i; discriminate.
+  - destruct i as [|i]; cbn in H.
+    + inversion H. lia.
+    + apply IH in H. unfold STEP in *. lia.
+Qed.
+
+(* consecutive rows are exactly one hour apart *)
+Lemma grid_step : forall lo hi i a b,
+  nth_error (grid lo hi) i = Some a -> nth_error (grid lo hi) (S i) = Some b -> b = a + STEP.
+Proof.
+  unfold grid. intros lo hi i a b Ha Hb.
+  apply grid_from_nth in Ha. apply grid_from_nth in Hb. unfold STEP in *. lia.
+Qed.
+
+Lemma grid_from_NoDup : forall n lo, NoDup (grid_from n lo).
+Proof.
+  induction n as [|n IH]; intros lo; cbn; constructor; auto.
+  rewrite grid_from_In. intros [k [Hk E]]. unfold STEP in *. lia.
+Qed.
+Lemma grid_NoDup : forall lo hi, NoDup (grid lo hi).
+Proof. intros. apply grid_from_NoDup. Qed.
+
+(* ------------------------------------------------------------------ local days *)
+(* ascending boundaries *)
+Fixpoint ascending (l : list Z) : Prop :=
+  match l with
+  | [] => True
+  | a :: rest => (forall b, In b rest -> a < b) /\ ascending rest
+  end.
+
+Lemma day_start_spec : forall bnds t cur,
+  ascending bnds -> cur <= t ->
+  let s := day_start bnds t cur in
+  s <= t /\ (s = cur \/ In s bnds) /\ (forall b, In b bnds -> b <= t -> b <= s).
+Proof.
+  induction bnds as [|b0 rest IH]; intros t cur Asc Hc; cbn [day_start].
+  - cbn. repeat split; auto. intros b [].
+  - destruct Asc as [A1 A2]. destruct (b0 <=? t) eqn:E.
+    + apply Z.leb_le in E.
+      destruct (IH t b0 A2 E) as [S1 [S2 S3]].
+      cbn zeta. repeat split; auto.
+      * destruct S2 as [S2 | S2]; [right; left; auto | right; right; auto].
+      * intros b [Hb | Hb] Hbt; [subst b|]; auto.
+        destruct S2 as [S2 | S2]; [rewrite S2; lia|].
+        assert (b0 < day_start rest t b0) by (apply A1; auto). lia.
+    + apply Z.leb_gt in E. cbn zeta. repeat split; auto.
+      intros b [Hb | Hb] Hbt; [subst b; lia|]. specialize (A1 b Hb). lia.
+Qed.
+
+Lemma day_start_in : forall bnds t cur,
+  ascending bnds -> (exists b, In b bnds /\ b <= t) -> In (day_start bnds t cur) bnds.
+Proof.
+  intros [|b0 rest] t cur Asc [b [Hb Hle]]; [destruct Hb|].
+  cbn [day_start]. destruct Asc as [A1 A2].
+  assert (E : b0 <=? t = true).
+  { apply Z.leb_le. destruct Hb as [Hb | Hb]; [subst; auto | specialize (A1 b Hb); lia]. }
+  rewrite E. apply Z.leb_le in E.
+  destruct (day_start_spec rest t b0 A2 E) as [_ [[S | S] _]]; [left; auto | right; auto].
+Qed.
+
+Lemma day_next_spec : forall bnds t dflt,
+  ascending bnds -> (exists b, In b bnds /\ t < b) ->
+  let n := day_next bnds t dflt in
+  In n bnds /\ t < n /\ (forall b, In b bnds -> t < b -> n <= b).
+Proof.
+  induction bnds as [|b0 rest IH]; intros t dflt Asc [b [Hb Hlt]]; [destruct Hb|].
+  cbn [day_next]. destruct Asc as [A1 A2]. destruct (t <? b0) eqn:E.
+  - apply Z.ltb_lt in E. cbn zeta. repeat split; auto; [left; auto|].
+    intros b' [Hb' | Hb'] _; [subst; lia|]. specialize (A1 b' Hb'). lia.
+  - apply Z.ltb_ge in E. destruct Hb as [Hb | Hb]; [subst; lia|].
+    destruct (IH t dflt A2 (ex_intro _ b (conj Hb Hlt))) as [N1 [N2 N3]].
+    cbn zeta. repeat split; auto; [right; auto|].
+    intros b' [Hb' | Hb'] Hlt'; [subst; lia | auto].
+Qed.
+
+(* the frame covers whole local days: from the start of the day of the first stamp to the last hour before the
+   start of the day after the last stamp *)
+Definition covers (bnds : list Z) (t : Z) : Prop := (exists b, In b bnds /\ b <= t) /\ (exists b, In b bnds /\ t < b).
+Definition hour_aligned (bnds : list Z) : Prop := forall b b', In b bnds -> In b' bnds -> (b' - b) mod STEP = 0.
+
+Lemma whole_days_range : forall bnds tmin tmax lo hi,
+  ascending bnds -> hour_aligned bnds -> tmin <= tmax -> covers bnds tmin -> covers bnds tmax ->
+  day_range bnds no_skip tmin tmax = (lo, hi) ->
+  (In lo bnds /\ lo <= tmin /\ forall b, In b bnds -> b <= tmin -> b <= lo) /\
+  (In (hi + STEP) bnds /\ tmax < hi + STEP /\ forall b, In b bnds -> tmax < b -> hi + STEP <= b) /\
+  (forall t, In t (grid lo hi) <-> lo <= t < hi + STEP /\ (t - lo) mod STEP = 0).
+Proof.
+  intros bnds tmin tmax lo hi Asc Al Hmm [C1 _] [_ C2] E.
+  unfold day_range, no_skip in E. cbn [lo_fwd hi_back] in E. inversion E as [[E1 E2]]. clear E.
+  pose proof (day_start_in bnds tmin tmin Asc C1) as S0.
+  destruct (day_start_spec bnds tmin tmin Asc (Z.le_refl _)) as [S1 [_ S3]].
+  destruct (day_next_spec bnds tmax (tmax + STEP) Asc C2) as [N1 [N2 N3]].
+  cbn zeta in *.
+  set (s := day_start bnds tmin tmin) in *. set (n := day_next bnds tmax (tmax + STEP)) in *.
+  replace (s + 0) with s by lia. replace (n - STEP + STEP) with n by lia.
+  split; [repeat split; auto|]. split; [repeat split; auto|].
+  intros t. rewrite grid_In. specialize (Al s n S0 N1). unfold STEP in *. lia.
+Qed.
+
+Section Prep.
+  Variable A : Type.
+  Variable is_zero : A -> bool.
+  Variable lin : A -> A -> Z -> Z -> A.
+  Variable est : colname -> col A -> col A.
+
+  Notation cell := (cell A).
+  Notation col := (col A).
+  Notation row := (row A).
+
+  (* ---------------------------------------------------------------- a stage keeps what is there *)
+  Definition keeps (x y : col) : Prop := Forall2 (fun a b : cell => forall v, a = Some v -> b = Some v) x y.
+
+  Lemma keeps_refl : forall x, keeps x x.
+  Proof. induction x; constructor; auto. Qed.
+  Lemma keeps_trans : forall x y z, keeps x y -> keeps y z -> keeps x z.
+  Proof.
+    intros x y z H. revert z. induction H; intros z Hz; inversion Hz; subst; constructor; auto.
+    apply IHForall2. auto.
+  Qed.
+  Lemma keeps_length : forall x y, keeps x y -> length y = length x.
+  Proof. intros x y H. induction H; cbn; auto. Qed.
+
+  Lemma merge_fill_keeps : forall x e, keeps x (merge_fill x e).
+  Proof.
+    induction x as [|xi x IH]; intros e; cbn [merge_fill]; constructor; [|apply IH].
+    intros v E. subst xi. reflexivity.
+  Qed.
+
+  Lemma autocorr_stage_keeps : forall c x, keeps x (autocorr_stage est c x).
+  Proof.
+    intros c x. unfold autocorr_stage. destruct (_ <? _); [apply merge_fill_keeps | apply keeps_refl].
+  Qed.
+
+  Lemma ann_fst : forall l : col, map fst (fst (ann l)) = l.
+  Proof.
+    induction l as [|c l IH]; cbn [ann]; auto.
+    destruct (ann l) as [r nx] eqn:E. cbn in *. rewrite IH. reflexivity.
+  Qed.
+
+  Lemma tl_fwd_keeps : forall l prev, keeps (map fst l) (tl_fwd lin prev l).
+  Proof.
+    induction l as [|[c nx] l IH]; intros prev; cbn [map tl_fwd fst]; [constructor|].
+    destruct c as [v|]; constructor; try apply IH; [auto | intros v E; discriminate].
+  Qed.
+
+  Lemma time_linear_keeps : forall x, keeps x (time_linear lin x).
+  Proof.
+    intros x. unfold time_linear. rewrite <- (ann_fst x) at 1. apply tl_fwd_keeps.
+  Qed.
+
+  Lemma ffill_from_keeps : forall x prev, keeps x (ffill_from prev x).
+  Proof.
+    induction x as [|[v|] x IH]; intros prev; cbn [ffill_from]; constructor; try apply IH; [auto | intros v E; discriminate].
+  Qed.
+
+  Lemma bfill_keeps : forall x, keeps x (bfill x).
+  Proof.
+    induction x as [|c x IH]; cbn [bfill]; constructor; [|apply IH].
+    intros v E. subst c. reflexivity.
+  Qed.
+
+  Lemma fallbacks_keeps : forall x, keeps x (fallbacks lin x).
+  Proof.
+    intros x. unfold fallbacks.
+    set (x1 := if has_missing x then time_linear lin x else x).
+    set (x2 := if has_missing x1 then ffill x1 else x1).
+    assert (K1 : keeps x x1) by (unfold x1; destruct (has_missing x); [apply time_linear_keeps | apply keeps_refl]).
+    assert (K2 : keeps x1 x2) by (unfold x2; destruct (has_missing x1); [apply ffill_from_keeps | apply keeps_refl]).
+    destruct (has_missing x2).
+    - eapply keeps_trans; [exact K1|]. eapply keeps_trans; [exact K2|]. apply bfill_keeps.
+    - eapply keeps_trans; eauto.
+  Qed.
+
+  Lemma interp_col_keeps : forall c x, keeps x (interp_col lin est c x).
+  Proof.
+    intros c x. unfold interp_col. eapply keeps_trans; [apply autocorr_stage_keeps | apply fallbacks_keeps].
+  Qed.
+
+  Lemma interp_col_length : forall c x, length (interp_col lin est c x) = length x.
+  Proof. intros. apply keeps_length. apply interp_col_keeps. Qed.
+
+  (* ---------------------------------------------------------------- completeness *)
+  Definition has_value (x : col) : Prop := exists v, In (Some v) x.
+  Definition all_present (x : col) : Prop := Forall (fun c : cell => c <> None) x.
+
+  Lemma has_missing_false : forall x, has_missing x = false <-> all_present x.
+  Proof.
+    unfold has_missing, all_present. induction x as [|c x IH]; cbn [existsb].
+    - split; auto.
+    - rewrite orb_false_iff, IH. split.
+      + intros [H1 H2]. constructor; auto. destruct c; [congruence | discriminate].
+      + intros H. inversion H; subst. split; auto. destruct c; [reflexivity | congruence].
+  Qed.
+
+  Lemma keeps_has_value : forall x y, keeps x y -> has_value x -> has_value y.
+  Proof.
+    intros x y K [v Hv]. exists v. induction K; [destruct Hv|].
+    destruct Hv as [Hv | Hv]; [left; apply H; auto | right; auto].
+  Qed.
+
+  Lemma keeps_all_present : forall x y, keeps x y -> all_present x -> all_present y.
+  Proof.
+    intros x y K. induction K; intros P; [constructor|].
+    inversion P; subst. constructor; [|apply IHK; assumption].
+    destruct x as [v|]; [rewrite (H v eq_refl); discriminate | congruence].
+  Qed.
+
+  Lemma ann_snd_some : forall l : col, has_value l -> snd (ann l) <> None.
+  Proof.
+    induction l as [|c l IH]; intros [v Hv]; [destruct Hv|].
+    cbn [ann]. destruct (ann l) as [r nx] eqn:E. cbn [snd] in *.
+    destruct c as [w|]; [cbn; discriminate|].
+    destruct Hv as [Hv | Hv]; [discriminate|].
+    assert (N : nx <> None) by (apply IH; exists v; auto).
+    destruct nx as [[d u]|]; [cbn; discriminate | congruence].
+  Qed.
+
+  Lemma tl_fwd_complete : forall l prev,
+    prev <> None \/ has_value l -> all_present (tl_fwd lin prev (fst (ann l))).
+  Proof.
+    induction l as [|c l IH]; intros prev H; [constructor|].
+    cbn [ann]. destruct (ann l) as [r nx] eqn:E. cbn [fst tl_fwd].
+    cbn [fst] in IH.
+    destruct c as [w|].
+    - constructor; [discriminate|]. apply IH. left. discriminate.
+    - assert (NX : has_value l -> nx <> None).
+      { intros HV. pose proof (ann_snd_some l HV) as S. rewrite E in S. exact S. }
+      clear E.
+      constructor.
+      + destruct prev as [[d0 v0]|].
+        * destruct nx as [[d1 v1]|]; discriminate.
+        * destruct H as [H | [v [Hv | Hv]]]; [congruence | discriminate |].
+          assert (nx <> None) by (apply NX; exists v; auto).
+          destruct nx as [[d1 v1]|]; [discriminate | congruence].
+      + apply IH. destruct prev as [[d0 v0]|].
+        * left. discriminate.
+        * right. destruct H as [H | [v [Hv | Hv]]]; [congruence | discriminate | exists v; auto].
+  Qed.
+
+  Lemma time_linear_complete : forall x, has_value x -> all_present (time_linear lin x).
+  Proof. intros x H. unfold time_linear. apply tl_fwd_complete. right. exact H. Qed.
+
+  Lemma fallbacks_complete : forall x, has_value x -> all_present (fallbacks lin x).
+  Proof.
+    intros x HV. unfold fallbacks.
+    set (x1 := if has_missing x then time_linear lin x else x).
+    assert (P1 : all_present x1).
+    { unfold x1. destruct (has_missing x) eqn:E; [apply time_linear_complete; auto | apply has_missing_false; auto]. }
+    assert (E1 : has_missing x1 = false) by (apply has_missing_false; auto).
+    rewrite E1. cbn zeta. rewrite E1. exact P1.
+  Qed.
+
+  Lemma interp_col_complete : forall c x, has_value x -> all_present (interp_col lin est c x).
+  Proof.
+    intros c x HV. unfold interp_col. apply fallbacks_complete.
+    eapply keeps_has_value; [apply autocorr_stage_keeps | exact HV].
+  Qed.
+
+  (* nothing is invented on an empty column by the concrete fall-backs *)
+  Definition all_missing (x : col) : Prop := Forall (fun c : cell => c = None) x.
+
+  (* the two last fall-backs alone already complete a column that has a value *)
+  Lemma ffill_from_present : forall x prev, prev <> None -> all_present (ffill_from prev x).
+  Proof.
+    induction x as [|[v|] x IH]; intros prev P; cbn [ffill_from]; [constructor | |].
+    - constructor; [discriminate | apply IH; discriminate].
+    - constructor; [exact P | apply IH; exact P].
+  Qed.
+  Lemma bfill_ffill_complete : forall x, has_value x -> all_present (bfill (ffill x)).
+  Proof.
+    unfold ffill. intros x. generalize (@None A).
+    induction x as [|c x IH]; intros prev [v Hv]; [destruct Hv|].
+    destruct c as [w|]; cbn [ffill_from bfill].
+    - pose proof (ffill_from_present x (Some w)) as P.
+      assert (P' : all_present (ffill_from (Some w) x)) by (apply P; discriminate).
+      constructor; [cbn; discriminate|]. eapply keeps_all_present; [apply bfill_keeps | exact P'].
+    - destruct Hv as [Hv | Hv]; [discriminate|].
+      assert (Q : all_present (bfill (ffill_from prev x))) by (apply IH; exists v; auto).
+      constructor; auto.
+      destruct prev as [p|]; [cbn; discriminate|]. cbn [present].
+      destruct (bfill (ffill_from None x)) as [|h t] eqn:B.
+      + exfalso. clear - B Hv. destruct x; [destruct Hv|]. cbn in B. destruct c; discriminate.
+      + cbn. inversion Q; auto.
+  Qed.
+
+  (* ---------------------------------------------------------------- rows, duplicates, reindex *)
+  Lemma lookup_cons : forall t (r : row) rows,
+    lookup t (r :: rows) = if ts r =? t then Some r else lookup t rows.
+  Proof. reflexivity. Qed.
+
+  Lemma lookup_remove_dups_from : forall t (rows : list row) seen,
+    lookup t (remove_dups_from seen rows) = if existsb (Z.eqb t) seen then None else lookup t rows.
+  Proof.
+    intros t. induction rows as [|r rows IH]; intros seen.
+    - cbn. destruct (existsb _ seen); reflexivity.
+    - cbn [remove_dups_from]. destruct (existsb (Z.eqb (ts r)) seen) eqn:E.
+      + rewrite IH, lookup_cons. destruct (ts r =? t) eqn:Et; [|reflexivity].
+        apply Z.eqb_eq in Et. subst t. rewrite E. reflexivity.
+      + rewrite !lookup_cons, IH. cbn [existsb]. destruct (ts r =? t) eqn:Et.
+        * apply Z.eqb_eq in Et. subst t. rewrite E. reflexivity.
+        * rewrite Z.eqb_sym, Et. reflexivity.
+  Qed.
+
+  Lemma lookup_remove_duplicates : forall t (rows : list row), lookup t (remove_duplicates rows) = lookup t rows.
+  Proof. intros. unfold remove_duplicates. rewrite lookup_remove_dups_from. reflexivity. Qed.
+
+  Lemma lookup_map_zero : forall elec t rows,
+    lookup t (map (zero_to_nan is_zero elec) rows) = option_map (zero_to_nan is_zero elec) (lookup t rows).
+  Proof.
+    intros elec t. induction rows as [|r rows IH]; [reflexivity|].
+    unfold lookup in *. cbn [map find]. cbn [zero_to_nan ts]. destruct (ts r =? t); [reflexivity | exact IH].
+  Qed.
+
+  Lemma lookup_ts : forall t (rows : list row) r, lookup t rows = Some r -> ts r = t /\ In r rows.
+  Proof.
+    intros t rows r H. apply find_some in H. destruct H as [H1 H2]. apply Z.eqb_eq in H2. auto.
+  Qed.
+
+  (* the column handed to the interpolation is, stamp by stamp, what was supplied *)
+  Lemma prep_x_eq : forall elec g rows c,
+    map (get c) (reindex g (remove_duplicates (map (zero_to_nan is_zero elec) rows))) =
+    map (fun t => supplied is_zero elec rows t c) g.
+  Proof.
+    intros elec g rows c. unfold reindex. rewrite map_map. apply map_ext. intros t.
+    rewrite lookup_remove_duplicates, lookup_map_zero. unfold supplied.
+    destruct (lookup t rows); cbn [option_map]; [reflexivity | destruct c; reflexivity].
+  Qed.
+
+  Lemma prep_col_range_eq : forall elec lo hi rows c,
+    prep_col_range is_zero lin est elec lo hi rows c =
+    let g := grid lo hi in
+    let x := map (fun t => supplied is_zero elec rows t c) g in
+    let y := interp_col lin est c x in
+    combine (combine g y) (flags x y).
+  Proof. intros. unfold prep_col_range. cbn zeta. rewrite prep_x_eq. reflexivity. Qed.
+
+  (* ---------------------------------------------------------------- reading the output list *)
+  Lemma out_in : forall (h : Z -> cell) g y t v f, length y = length g ->
+    In (t, v, f) (combine (combine g y) (flags (map h g) y)) ->
+    In (t, v) (combine g y) /\ f = missing (h t) && present v.
+  Proof.
+    intros h. induction g as [|t0 g IH]; intros y t v f L H; [destruct H|].
+    destruct y as [|v0 y]; [discriminate|]. cbn in H. destruct H as [H | H].
+    - inversion H; subst. split; [left; reflexivity | reflexivity].
+    - cbn in L. destruct (IH y t v f ltac:(lia) H) as [H1 H2]. split; [right; auto | auto].
+  Qed.
+
+  Lemma out_ex : forall (h : Z -> cell) g y t, length y = length g -> In t g ->
+    exists v, In (t, v) (combine g y) /\ In (t, v, missing (h t) && present v) (combine (combine g y) (flags (map h g) y)).
+  Proof.
+    intros h. induction g as [|t0 g IH]; intros y t L H; [destruct H|].
+    destruct y as [|v0 y]; [discriminate|]. cbn in L. destruct H as [H | H].
+    - subst t0. exists v0. split; left; reflexivity.
+    - destruct (IH y t ltac:(lia) H) as [v [H1 H2]]. exists v. split; right; auto.
+  Qed.
+
+  Lemma keeps_in : forall (h : Z -> cell) g y t v, keeps (map h g) y -> In (t, v) (combine g y) ->
+    forall a, h t = Some a -> v = Some a.
+  Proof.
+    intros h. induction g as [|t0 g IH]; intros y t v K H a E; [destruct H|].
+    inversion K; subst. cbn in H. destruct H as [H | H].
+    - inversion H; subst. auto.
+    - eapply IH; eauto.
+  Qed.
+
+  Lemma all_present_in : forall (g : list Z) (y : col) (t : Z) (v : cell), all_present y -> In (t, v) (combine g y) -> v <> None.
+  Proof.
+    intros g y t v P H. apply in_combine_r in H. unfold all_present in P. rewrite Forall_forall in P. auto.
+  Qed.
+
+  Lemma out_stamps : forall (g : list Z) (y : col) (fl : list bool), length y = length g -> length fl = length g ->
+    map (fun p : Z * cell * bool => fst (fst p)) (combine (combine g y) fl) = g.
+  Proof.
+    induction g as [|t g IH]; intros y fl L1 L2; [reflexivity|].
+    destruct y; [discriminate|]. destruct fl; [discriminate|]. cbn in *. f_equal. apply IH; lia.
+  Qed.
+
+  Lemma flags_length : forall x y : col, length y = length x -> length (flags x y) = length x.
+  Proof. intros. unfold flags. rewrite map_length, combine_length. lia. Qed.
+
+  Lemma sufficiency_gen : forall (h : Z -> cell) g y, keeps (map h g) y ->
+    sufficiency_col (combine (combine g y) (flags (map h g) y)) = map (fun t => (t, h t)) g.
+  Proof.
+    intros h. induction g as [|t g IH]; intros y K; [reflexivity|].
+    inversion K as [|a v l y' H1 H2]; subst. cbn [map combine flags sufficiency_col fst snd].
+    f_equal; [|apply IH; exact H2].
+    f_equal. destruct (h t) as [a|] eqn:E.
+    - rewrite (H1 a eq_refl). reflexivity.
+    - cbn. destruct v; reflexivity.
+  Qed.
+
+  (* ================================================================ the theorems, for a given range *)
+  Section Range.
+    Variable elec : bool.
+    Variables lo hi : Z.
+    Variable rows : list row.
+    Variable c : colname.
+    Let sup := fun t => supplied is_zero elec rows t c.
+    Let out := prep_col_range is_zero lin est elec lo hi rows c.
+
+    Lemma range_len : length (interp_col lin est c (map sup (grid lo hi))) = length (grid lo hi).
+    Proof. rewrite interp_col_length, map_length. reflexivity. Qed.
+
+    (* flags: interpolated_<col> is true exactly on the cells that were missing and are present now *)
+    Lemma flags_exact_l : forall t v f, In (t, v, f) out -> (f = true <-> sup t = None /\ v <> None).
+    Proof.
+      intros t v f H. unfold out in H. rewrite prep_col_range_eq in H. cbn zeta in H.
+      apply out_in in H; [|apply range_len]. destruct H as [_ F]. subst f.
+      rewrite andb_true_iff, missing_true, present_true. reflexivity.
+    Qed.
+
+    (* a supplied value is in the frame unchanged, and not flagged *)
+    Lemma supplied_row_l : forall t v f a, In (t, v, f) out -> sup t = Some a -> v = Some a /\ f = false.
+    Proof.
+      intros t v f a H E. unfold out in H. rewrite prep_col_range_eq in H. cbn zeta in H.
+      apply out_in in H; [|apply range_len]. destruct H as [H F].
+      assert (V : v = Some a) by (eapply keeps_in; [apply interp_col_keeps | exact H | exact E]).
+      split; auto. subst f. cbn beta. change (sup t) with (supplied is_zero elec rows t c) in E. rewrite E. reflexivity.
+    Qed.
+
+    Lemma supplied_preserved_l : forall t a, In t (grid lo hi) -> sup t = Some a -> In (t, Some a, false) out.
+    Proof.
+      intros t a G E. unfold out. rewrite prep_col_range_eq. cbn zeta.
+      destruct (out_ex sup (grid lo hi) (interp_col lin est c (map sup (grid lo hi))) t range_len G) as [v [H1 H2]].
+      assert (V : v = Some a) by (eapply keeps_in; [apply interp_col_keeps | exact H1 | exact E]).
+      subst v. rewrite E in H2. exact H2.
+    Qed.
+
+    Lemma every_stamp_l : forall t, In t (grid lo hi) -> exists v f, In (t, v, f) out.
+    Proof.
+      intros t G. unfold out. rewrite prep_col_range_eq. cbn zeta.
+      destruct (out_ex sup (grid lo hi) (interp_col lin est c (map sup (grid lo hi))) t range_len G) as [v [_ H2]].
+      eauto.
+    Qed.
+
+    Lemma complete_unless_empty_l :
+      (exists t a, In t (grid lo hi) /\ sup t = Some a) -> forall t v f, In (t, v, f) out -> v <> None.
+    Proof.
+      intros [t0 [a [G E]]] t v f H. unfold out in H. rewrite prep_col_range_eq in H. cbn zeta in H.
+      apply out_in in H; [|apply range_len]. destruct H as [H _].
+      eapply all_present_in; [|exact H]. apply interp_col_complete.
+      exists a. rewrite <- E. apply in_map. exact G.
+    Qed.
+
+    Lemma stamps_l : map (fun p : Z * cell * bool => fst (fst p)) out = grid lo hi.
+    Proof.
+      unfold out. rewrite prep_col_range_eq. cbn zeta. apply out_stamps; [apply range_len|].
+      rewrite flags_length; [apply map_length | apply interp_col_length].
+    Qed.
+
+    Lemma out_stamp_in_grid : forall t v f, In (t, v, f) out -> In t (grid lo hi).
+    Proof.
+      intros t v f H. rewrite <- stamps_l. change t with (fst (fst (t, v, f))). apply in_map with (f := fun p : Z * cell * bool => fst (fst p)). exact H.
+    Qed.
+
+    (* _create_sufficiency_df gives back exactly what was supplied *)
+    Lemma sufficiency_l : sufficiency_col out = map (fun t => (t, sup t)) (grid lo hi).
+    Proof.
+      unfold out. rewrite prep_col_range_eq. cbn zeta. apply sufficiency_gen. apply interp_col_keeps.
+    Qed.
+  End Range.
+
+  (* ---------------------------------------------------------------- later duplicates are ignored *)
+  Lemma lookup_app : forall t (l1 l2 : list row),
+    lookup t (l1 ++ l2) = match lookup t l1 with Some r => Some r | None => lookup t l2 end.
+  Proof.
+    intros t. induction l1 as [|r l1 IH]; intros l2; [reflexivity|].
+    unfold lookup in *. cbn [app find]. destruct (ts r =? t); [reflexivity | apply IH].
+  Qed.
+
+  Lemma lookup_later_duplicate : forall t (l1 : list row) r l2 r' l3, ts r' = ts r ->
+    lookup t (l1 ++ r :: l2 ++ r' :: l3) = lookup t (l1 ++ r :: l2 ++ l3).
+  Proof.
+    intros t l1 r l2 r' l3 E. rewrite !lookup_app.
+    destruct (lookup t l1); [reflexivity|].
+    change (r :: l2 ++ r' :: l3) with ([r] ++ l2 ++ r' :: l3). change (r :: l2 ++ l3) with ([r] ++ l2 ++ l3).
+    rewrite !lookup_app. unfold lookup at 1 4. cbn [find]. destruct (ts r =? t) eqn:Et; [reflexivity|].
+    destruct (lookup t l2); [reflexivity|].
+    unfold lookup. cbn [find]. rewrite E, Et. reflexivity.
+  Qed.
+
+  Lemma first_duplicate_wins_range : forall elec lo hi (l1 : list row) r l2 r' l3 c, ts r' = ts r ->
+    prep_col_range is_zero lin est elec lo hi (l1 ++ r :: l2 ++ r' :: l3) c =
+    prep_col_range is_zero lin est elec lo hi (l1 ++ r :: l2 ++ l3) c.
+  Proof.
+    intros. rewrite !prep_col_range_eq. cbn zeta.
+    assert (E : map (fun t => supplied is_zero elec (l1 ++ r :: l2 ++ r' :: l3) t c) (grid lo hi) =
+                map (fun t => supplied is_zero elec (l1 ++ r :: l2 ++ l3) t c) (grid lo hi)).
+    { apply map_ext. intros t. unfold supplied. rewrite lookup_later_duplicate by assumption. reflexivity. }
+    rewrite E. reflexivity.
+  Qed.
+
+  (* min / max stamp do not move either, so the whole frame is the same *)
+  Lemma fold_min_le : forall (l : list row) m, fold_left (fun m x => Z.min m (ts x)) l m <= m.
+  Proof. induction l as [|x l IH]; intros m; cbn; [lia|]. specialize (IH (Z.min m (ts x))). lia. Qed.
+  Lemma fold_min_spec : forall (l : list row) m,
+    let r := fold_left (fun m x => Z.min m (ts x)) l m in
+    (r = m \/ exists x, In x l /\ r = ts x) /\ (forall x, In x l -> r <= ts x).
+  Proof.
+    induction l as [|x l IH]; intros m; cbn [fold_left]; cbn zeta.
+    - split; [left; reflexivity | intros x []].
+    - destruct (IH (Z.min m (ts x))) as [[H1 | [y [Hy1 Hy2]]] H2]; cbn zeta in *.
+      + split.
+        * destruct (Z.min_spec m (ts x)) as [[_ M] | [_ M]]; [left; lia | right; exists x; split; [left; auto | lia]].
+        * intros y [Hy | Hy]; [subst y|auto].
+          pose proof (fold_min_le l (Z.min m (ts x))). lia.
+      + split; [right; exists y; split; [right; auto | auto]|].
+        intros z [Hz | Hz]; [subst z|auto].
+        pose proof (fold_min_le l (Z.min m (ts x))). lia.
+  Qed.
+  Lemma fold_max_ge : forall (l : list row) m, m <= fold_left (fun m x => Z.max m (ts x)) l m.
+  Proof. induction l as [|x l IH]; intros m; cbn; [lia|]. specialize (IH (Z.max m (ts x))). lia. Qed.
+  Lemma fold_max_spec : forall (l : list row) m,
+    let r := fold_left (fun m x => Z.max m (ts x)) l m in
+    (r = m \/ exists x, In x l /\ r = ts x) /\ (forall x, In x l -> ts x <= r).
+  Proof.
+    induction l as [|x l IH]; intros m; cbn [fold_left]; cbn zeta.
+    - split; [left; reflexivity | intros x []].
+    - destruct (IH (Z.max m (ts x))) as [[H1 | [y [Hy1 Hy2]]] H2]; cbn zeta in *.
+      + split.
+        * destruct (Z.max_spec m (ts x)) as [[_ M] | [_ M]]; [right; exists x; split; [left; auto | lia] | left; lia].
+        * intros y [Hy | Hy]; [subst y|auto].
+          pose proof (fold_max_ge l (Z.max m (ts x))). lia.
+      + split; [right; exists y; split; [right; auto | auto]|].
+        intros z [Hz | Hz]; [subst z|auto].
+        pose proof (fold_max_ge l (Z.max m (ts x))). lia.
+  Qed.
+
+  (* the first and last stamp of a non-empty input *)
+  Definition is_min (rows : list row) (m : Z) : Prop := (exists x, In x rows /\ ts x = m) /\ forall x, In x rows -> m <= ts x.
+  Definition is_max (rows : list row) (m : Z) : Prop := (exists x, In x rows /\ ts x = m) /\ forall x, In x rows -> ts x <= m.
+
+  Lemma ts_min_is_min : forall (r : row) rest, is_min (r :: rest) (ts_min r rest).
+  Proof.
+    intros r rest. unfold ts_min, is_min. destruct (fold_min_spec rest (ts r)) as [H1 H2]. cbn zeta in *.
+    pose proof (fold_min_le rest (ts r)) as L. split.
+    - destruct H1 as [H1 | [x [Hx1 Hx2]]]; [exists r; split; [left; auto | auto] | exists x; split; [right; auto | auto]].
+    - intros x [Hx | Hx]; [subst x; exact L | auto].
+  Qed.
+  Lemma ts_max_is_max : forall (r : row) rest, is_max (r :: rest) (ts_max r rest).
+  Proof.
+    intros r rest. unfold ts_max, is_max. destruct (fold_max_spec rest (ts r)) as [H1 H2]. cbn zeta in *.
+    pose proof (fold_max_ge rest (ts r)) as L. split.
+    - destruct H1 as [H1 | [x [Hx1 Hx2]]]; [exists r; split; [left; auto | auto] | exists x; split; [right; auto | auto]].
+    - intros x [Hx | Hx]; [subst x; exact L | auto].
+  Qed.
+  Lemma is_min_unique : forall rows a b, is_min rows a -> is_min rows b -> a = b.
+  Proof. intros rows a b [[x [X1 X2]] HA] [[y [Y1 Y2]] HB]. specialize (HA y Y1). specialize (HB x X1). lia. Qed.
+  Lemma is_max_unique : forall rows a b, is_max rows a -> is_max rows b -> a = b.
+  Proof. intros rows a b [[x [X1 X2]] HA] [[y [Y1 Y2]] HB]. specialize (HA y Y1). specialize (HB x X1). lia. Qed.
+
+  Lemma frame_range_spec : forall bnds e (rows : list row), rows <> [] ->
+    exists tmin tmax, is_min rows tmin /\ is_max rows tmax /\ frame_range bnds e rows = day_range bnds e tmin tmax.
+  Proof.
+    intros bnds e [|r rest] N; [congruence|].
+    exists (ts_min r rest), (ts_max r rest). split; [apply ts_min_is_min|]. split; [apply ts_max_is_max | reflexivity].
+  Qed.
+
+  Lemma frame_range_same_stamps : forall bnds e (rows rows' : list row),
+    rows <> [] -> rows' <> [] -> (forall t, In t (map ts rows) <-> In t (map ts rows')) ->
+    frame_range bnds e rows = frame_range bnds e rows'.
+  Proof.
+    intros bnds e rows rows' N N' S.
+    destruct (frame_range_spec bnds e rows N) as [a [b [HA [HB E]]]].
+    destruct (frame_range_spec bnds e rows' N') as [a' [b' [HA' [HB' E']]]].
+    rewrite E, E'.
+    assert (T : forall m, is_min rows m -> is_min rows' m).
+    { intros m [[x [X1 X2]] M]. split.
+      - assert (I : In m (map ts rows')) by (apply S; rewrite <- X2; apply in_map; auto).
+        apply in_map_iff in I. destruct I as [y [Y1 Y2]]. exists y. auto.
+      - intros y Y. assert (I : In (ts y) (map ts rows)) by (apply S; apply in_map; auto).
+        apply in_map_iff in I. destruct I as [z [Z1 Z2]]. rewrite <- Z1. auto. }
+    assert (U : forall m, is_max rows m -> is_max rows' m).
+    { intros m [[x [X1 X2]] M]. split.
+      - assert (I : In m (map ts rows')) by (apply S; rewrite <- X2; apply in_map; auto).
+        apply in_map_iff in I. destruct I as [y [Y1 Y2]]. exists y. auto.
+      - intros y Y. assert (I : In (ts y) (map ts rows)) by (apply S; apply in_map; auto).
+        apply in_map_iff in I. destruct I as [z [Z1 Z2]]. rewrite <- Z1. auto. }
+    rewrite (is_min_unique rows' a a' (T a HA) HA'), (is_max_unique rows' b b' (U b HB) HB'). reflexivity.
+  Qed.
+
+  Lemma first_duplicate_wins_l : forall elec bnds e (l1 : list row) r l2 r' l3 c, ts r' = ts r ->
+    prep_col is_zero lin est elec bnds e (l1 ++ r :: l2 ++ r' :: l3) c =
+    prep_col is_zero lin est elec bnds e (l1 ++ r :: l2 ++ l3) c.
+  Proof.
+    intros elec bnds e l1 r l2 r' l3 c E. unfold prep_col.
+    rewrite (frame_range_same_stamps bnds e (l1 ++ r :: l2 ++ r' :: l3) (l1 ++ r :: l2 ++ l3)).
+    - destruct (frame_range bnds e (l1 ++ r :: l2 ++ l3)) as [lo hi]. apply first_duplicate_wins_range. exact E.
+    - destruct l1; discriminate.
+    - destruct l1; discriminate.
+    - intros t. rewrite !map_app. cbn [map]. rewrite !map_app. cbn [map]. rewrite !in_app_iff. cbn [In]. rewrite !in_app_iff. cbn [In].
+      rewrite E. tauto.
+  Qed.
+
+  (* ---------------------------------------------------------------- zero electricity readings *)
+  Lemma zero_electric_missing_l : forall (rows : list row) t r z,
+    lookup t rows = Some r -> r_obs r = Some z -> is_zero z = true ->
+    supplied is_zero true rows t Obs = None /\ supplied is_zero false rows t Obs = Some z.
+  Proof.
+    intros rows t r z L O Z. unfold supplied. rewrite L. cbn [get zero_to_nan r_obs zero_cell].
+    rewrite O. cbn [zero_cell]. rewrite Z. cbn. auto.
+  Qed.
+
+  Lemma supplied_other_columns : forall elec (rows : list row) t c, c <> Obs ->
+    supplied is_zero elec rows t c = match lookup t rows with Some r => get c r | None => None end.
+  Proof. intros elec rows t c N. unfold supplied. destruct (lookup t rows); [|reflexivity]. destruct c; [reflexivity | congruence | reflexivity]. Qed.
+
+  Lemma supplied_nonzero : forall elec (rows : list row) t r z,
+    lookup t rows = Some r -> r_obs r = Some z -> is_zero z = false -> supplied is_zero elec rows t Obs = Some z.
+  Proof.
+    intros elec rows t r z L O Z. unfold supplied. rewrite L. cbn [get zero_to_nan r_obs]. rewrite O. cbn [zero_cell].
+    rewrite Z, andb_false_r. reflexivity.
+  Qed.
+
+
+  (* ================================================================ the theorems, for the frame the code builds *)
+  Definition on_the_hour (bnds : list Z) (rows : list row) : Prop :=
+    forall r b, In r rows -> In b bnds -> (ts r - b) mod STEP = 0.
+  Definition well_formed (bnds : list Z) (rows : list row) : Prop :=
+    rows <> [] /\ ascending bnds /\ hour_aligned bnds /\ (forall r, In r rows -> covers bnds (ts r)) /\ on_the_hour bnds rows.
+
+  Lemma frame_whole_days_l : forall bnds rows lo hi, well_formed bnds rows ->
+    frame_range bnds no_skip rows = (lo, hi) ->
+    exists tmin tmax, is_min rows tmin /\ is_max rows tmax /\
+      (In lo bnds /\ lo <= tmin /\ forall b, In b bnds -> b <= tmin -> b <= lo) /\
+      (In (hi + STEP) bnds /\ tmax < hi + STEP /\ forall b, In b bnds -> tmax < b -> hi + STEP <= b) /\
+      (forall t, In t (grid lo hi) <-> lo <= t < hi + STEP /\ (t - lo) mod STEP = 0).
+  Proof.
+    intros bnds rows lo hi [N [Asc [Al [Cov _]]]] E.
+    destruct (frame_range_spec bnds no_skip rows N) as [tmin [tmax [Hmin [Hmax E']]]].
+    rewrite E in E'. symmetry in E'.
+    exists tmin, tmax. split; [exact Hmin|]. split; [exact Hmax|].
+    destruct Hmin as [[x [X1 X2]] Mn]. destruct Hmax as [[y [Y1 Y2]] Mx].
+    apply (whole_days_range bnds tmin tmax lo hi Asc Al); auto.
+    - specialize (Mn y Y1). lia.
+    - rewrite <- X2. apply Cov. exact X1.
+    - rewrite <- Y2. apply Cov. exact Y1.
+  Qed.
+
+  Lemma supplied_stamp_in_frame : forall bnds rows lo hi r, well_formed bnds rows ->
+    frame_range bnds no_skip rows = (lo, hi) -> In r rows -> In (ts r) (grid lo hi).
+  Proof.
+    intros bnds rows lo hi r WF E R.
+    destruct (frame_whole_days_l bnds rows lo hi WF E) as [tmin [tmax [[_ Mn] [[_ Mx] [[L1 [L2 _]] [[H1 [H2 _]] G]]]]]].
+    apply G. destruct WF as [_ [_ [_ [_ OH]]]]. specialize (OH r lo R L1). specialize (Mn r R). specialize (Mx r R).
+    split; [lia | exact OH].
+  Qed.
+
+
+  (* the same, phrased with the day start of the first stamp and the start of the day after the last stamp *)
+  Definition day_start_of (bnds : list Z) (t b : Z) : Prop := In b bnds /\ b <= t /\ forall b', In b' bnds -> b' <= t -> b' <= b.
+  Definition next_day_of (bnds : list Z) (t b : Z) : Prop := In b bnds /\ t < b /\ forall b', In b' bnds -> t < b' -> b <= b'.
+  Definition stamps (o : out_col A) : list Z := map (fun p : Z * cell * bool => fst (fst p)) o.
+
+  Definition whole_days_for (bnds : list Z) (rows : list row) (o : out_col A) : Prop :=
+    forall tmin tmax b0 b1, is_min rows tmin -> is_max rows tmax -> day_start_of bnds tmin b0 -> next_day_of bnds tmax b1 ->
+    forall t, In t (stamps o) <-> b0 <= t < b1 /\ (t - b0) mod STEP = 0.
+
+  Lemma frame_whole_days_iff : forall elec bnds rows c, well_formed bnds rows ->
+    whole_days_for bnds rows (prep_col is_zero lin est elec bnds no_skip rows c).
+  Proof.
+    intros elec bnds rows c WF tmin tmax b0 b1 Hmin Hmax [D1 [D2 D3]] [N1 [N2 N3]] t.
+    unfold stamps, prep_col. destruct (frame_range bnds no_skip rows) as [lo hi] eqn:E.
+    rewrite stamps_l.
+    destruct (frame_whole_days_l bnds rows lo hi WF E) as [tmin' [tmax' [Hmin' [Hmax' [[L1 [L2 L3]] [[H1 [H2 H3]] G]]]]]].
+    rewrite (is_min_unique rows tmin tmin' Hmin Hmin') in *. rewrite (is_max_unique rows tmax tmax' Hmax Hmax') in *.
+    assert (b0 = lo) by (specialize (D3 lo L1 L2); specialize (L3 b0 D1 D2); lia).
+    assert (b1 = hi + STEP) by (specialize (N3 (hi + STEP) H1 H2); specialize (H3 b1 N1 N2); lia).
+    subst b0 b1. apply G.
+  Qed.
+
+  Section Frame.
+    Variable elec : bool.
+    Variable bnds : list Z.
+    Variable e : edges.
+    Variable rows : list row.
+    Variable c : colname.
+    Let sup := fun t => supplied is_zero elec rows t c.
+    Let out := prep_col is_zero lin est elec bnds e rows c.
+
+    Lemma frame_flags_exact : forall t v f, In (t, v, f) out -> (f = true <-> sup t = None /\ v <> None).
+    Proof. unfold out, prep_col. destruct (frame_range bnds e rows) as [lo hi]. apply flags_exact_l. Qed.
+
+    Lemma frame_supplied_row : forall t v f a, In (t, v, f) out -> sup t = Some a -> v = Some a /\ f = false.
+    Proof. unfold out, prep_col. destruct (frame_range bnds e rows) as [lo hi]. apply supplied_row_l. Qed.
+
+    Lemma frame_sufficiency : exists lo hi, frame_range bnds e rows = (lo, hi) /\
+      sufficiency_col out = map (fun t => (t, sup t)) (grid lo hi).
+    Proof.
+      unfold out, prep_col. destruct (frame_range bnds e rows) as [lo hi]. exists lo, hi. split; [reflexivity | apply sufficiency_l].
+    Qed.
+
+    Lemma frame_gap_free : exists lo hi, frame_range bnds e rows = (lo, hi) /\
+      map (fun p : Z * cell * bool => fst (fst p)) out = grid lo hi.
+    Proof.
+      unfold out, prep_col. destruct (frame_range bnds e rows) as [lo hi]. exists lo, hi. split; [reflexivity | apply stamps_l].
+    Qed.
+
+    Lemma frame_complete : (exists t a v f, In (t, v, f) out /\ sup t = Some a) -> forall t v f, In (t, v, f) out -> v <> None.
+    Proof.
+      unfold out, prep_col. destruct (frame_range bnds e rows) as [lo hi]. intros [t0 [a [v0 [f0 [I S]]]]].
+      apply complete_unless_empty_l. exists t0, a. split; [eapply out_stamp_in_grid; exact I | exact S].
+    Qed.
+  End Frame.
+
+  Lemma frame_supplied_preserved : forall elec bnds rows c r a, well_formed bnds rows -> In r rows ->
+    supplied is_zero elec rows (ts r) c = Some a ->
+    In (ts r, Some a, false) (prep_col is_zero lin est elec bnds no_skip rows c).
+  Proof.
+    intros elec bnds rows c r a WF R S. unfold prep_col. destruct (frame_range bnds no_skip rows) as [lo hi] eqn:E.
+    apply supplied_preserved_l; [|exact S]. eapply supplied_stamp_in_frame; eauto.
+  Qed.
+
+  Lemma frame_complete_wf : forall elec bnds rows c, well_formed bnds rows ->
+    (exists r a, In r rows /\ supplied is_zero elec rows (ts r) c = Some a) ->
+    forall t v f, In (t, v, f) (prep_col is_zero lin est elec bnds no_skip rows c) -> v <> None.
+  Proof.
+    intros elec bnds rows c WF [r [a [R S]]]. apply frame_complete.
+    exists (ts r), a, (Some a), false. split; [apply frame_supplied_preserved; auto | exact S].
+  Qed.
+
+  (* ---------------------------------------------------------------- the finite-map variant computes the same frame *)
+  Lemma key_inj : forall lo a b, lo <= a -> lo <= b -> key lo a = key lo b -> a = b.
+  Proof. unfold key. intros lo a b Ha Hb E. apply Z2Pos.inj in E; lia. Qed.
+
+  Definition index_step (lo : Z) (m : PositiveMap.t row) (r : row) : PositiveMap.t row :=
+    if ts r <? lo then m
+    else if PositiveMap.mem (key lo (ts r)) m then m
+    else PositiveMap.add (key lo (ts r)) r m.
+
+  Lemma index_fold_find : forall lo t, lo <= t -> forall rows m,
+    PositiveMap.find (key lo t) (fold_left (index_step lo) rows m) =
+    match PositiveMap.find (key lo t) m with Some r => Some r | None => lookup t rows end.
+  Proof.
+    intros lo t Ht. induction rows as [|r rows IH]; intros m; cbn [fold_left].
+    - destruct (PositiveMap.find _ m); reflexivity.
+    - rewrite IH. unfold index_step, lookup. cbn [find]. destruct (ts r <? lo) eqn:E1.
+      + apply Z.ltb_lt in E1. assert (N : ts r =? t = false) by (apply Z.eqb_neq; lia). rewrite N. reflexivity.
+      + apply Z.ltb_ge in E1. rewrite PositiveMap.mem_find. destruct (PositiveMap.find (key lo (ts r)) m) as [q|] eqn:F.
+        * destruct (ts r =? t) eqn:Et; [|reflexivity]. apply Z.eqb_eq in Et. rewrite Et in F. rewrite F. reflexivity.
+        * destruct (ts r =? t) eqn:Et.
+          -- apply Z.eqb_eq in Et. rewrite <- Et. rewrite PositiveMap.gss. rewrite F. reflexivity.
+          -- apply Z.eqb_neq in Et. rewrite PositiveMap.gso; [reflexivity|].
+             intros K. apply Et. symmetry. eapply key_inj; eauto.
+    Qed.
+
+  Lemma index_rows_find : forall lo t (rows : list row), lo <= t ->
+    PositiveMap.find (key lo t) (index_rows lo rows) = lookup t rows.
+  Proof.
+    intros lo t rows Ht. unfold index_rows.
+    change (fun (m : PositiveMap.t row) (r : row) => if ts r <? lo then m else if PositiveMap.mem (key lo (ts r)) m then m else PositiveMap.add (key lo (ts r)) r m)
+      with (index_step lo).
+    rewrite (index_fold_find lo t Ht). rewrite PositiveMap.gempty. reflexivity.
+  Qed.
+
+  Lemma reindex_fast_eq : forall lo g (rows : list row), (forall t, In t g -> lo <= t) ->
+    reindex_fast lo g rows = reindex g (remove_duplicates rows).
+  Proof.
+    intros lo g rows H. unfold reindex_fast, reindex. apply map_ext_in. intros t Ht.
+    rewrite index_rows_find by auto. rewrite lookup_remove_duplicates. reflexivity.
+  Qed.
+
+  Lemma prep_col_range_fast_eq : forall elec lo hi rows c,
+    prep_col_range_fast is_zero lin est elec lo hi rows c = prep_col_range is_zero lin est elec lo hi rows c.
+  Proof.
+    intros. unfold prep_col_range_fast, prep_col_range. cbn zeta.
+    rewrite reindex_fast_eq; [reflexivity|]. intros t Ht. apply grid_In in Ht. lia.
+  Qed.
+
+  Lemma prep_col_fast_eq : forall elec bnds e rows c,
+    prep_col_fast is_zero lin est elec bnds e rows c = prep_col is_zero lin est elec bnds e rows c.
+  Proof.
+    intros. unfold prep_col_fast, prep_col. destruct (frame_range bnds e rows). apply prep_col_range_fast_eq.
+  Qed.
+End Prep.
+
+Lemma not_in_by_existsb : forall t l, existsb (Z.eqb t) l = false -> ~ In t l.
+Proof.
+  intros t l H I. assert (E : existsb (Z.eqb t) l = true) by (apply existsb_exists; exists t; split; [auto | apply Z.eqb_refl]).
+  congruence.
+Qed.
+
+(* membership in a concrete frame over Z, decided by computation *)
+Definition oz_eqb (a b : option Z) : bool :=
+  match a, b with Some x, Some y => x =? y | None, None => true | _, _ => false end.
+Definition t3_eqb (p q : Z * option Z * bool) : bool :=
+  (fst (fst p) =? fst (fst q)) && oz_eqb (snd (fst p)) (snd (fst q)) && Bool.eqb (snd p) (snd q).
+Lemma t3_eqb_eq : forall p q, t3_eqb p q = true -> p = q.
+Proof.
+  intros [[t v] f] [[t' v'] f']. unfold t3_eqb. cbn [fst snd]. rewrite !andb_true_iff. intros [[H1 H2] H3].
+  apply Z.eqb_eq in H1. apply eqb_prop in H3. subst.
+  destruct v as [x|], v' as [y|]; cbn in H2; try discriminate; [apply Z.eqb_eq in H2; subst|]; reflexivity.
+Qed.
+Lemma in_by_t3 : forall p l, existsb (t3_eqb p) l = true -> In p l.
+Proof.
+  intros p l H. apply existsb_exists in H. destruct H as [q [I E]]. apply t3_eqb_eq in E. subst. exact I.
+Qed.
+
+(* ------------------------------------------------------------------ concrete witnesses (payload Z) *)
+Definition zlin (v0 v1 d0 d1 : Z) : Z := v0 + (v1 - v0) * d0 / (d0 + d1).
+Definition zzero (v : Z) : bool := v =? 0.
+Definition id_est (c : colname) (x : col Z) : col Z := x.
+Definition R (t : Z) (a b c : option Z) : row Z := mkrow t a b c.
+
+(* one 25-hour day (boundaries 0 and 1500), one supplied row *)
+Definition w_bnds : list Z := [0; 1500].
+Definition w_rows (t : Z) : list (row Z) := [R t (Some 5) (Some 1) None].
+
+Lemma w_wf : forall t, 0 <= t < 1500 -> t mod 60 = 0 -> well_formed Z w_bnds (w_rows t).
+Proof.
+  intros t Ht Hm. unfold w_bnds, w_rows.
+  split; [discriminate|].
+  split; [cbn; repeat split; intros b H; lia|].
+  split; [intros b b' H H'; cbn in H, H'; destruct H as [H|[H|[]]]; destruct H' as [H'|[H'|[]]]; subst; reflexivity|].
+  split; [intros r H; cbn in H; destruct H as [H|[]]; subst r; split; [exists 0|exists 1500]; cbn; split; auto; lia|].
+  intros r b H B; cbn in H, B; destruct H as [H|[]]; destruct B as [B|[B|[]]]; subst; cbn; unfold STEP; lia.
+Qed.
+
+Lemma w_min : forall t, is_min Z (w_rows t) t.
+Proof. intros t. split; [exists (R t (Some 5) (Some 1) None); split; [left|]; reflexivity | intros x [H | []]; subst; cbn; lia]. Qed.
+Lemma w_max : forall t, is_max Z (w_rows t) t.
+Proof. intros t. split; [exists (R t (Some 5) (Some 1) None); split; [left|]; reflexivity | intros x [H | []]; subst; cbn; lia]. Qed.
+Lemma w_day_start : forall t, 0 <= t < 1500 -> day_start_of w_bnds t 0.
+Proof. intros t Ht. split; [left; reflexivity|]. split; [lia|]. intros b' [B | [B | []]] L; subst; lia. Qed.
+Lemma w_next_day : forall t, 0 <= t < 1500 -> next_day_of w_bnds t 1500.
+Proof. intros t Ht. split; [right; left; reflexivity|]. split; [lia|]. intros b' [B | [B | []]] L; subst; lia. Qed.
+
+Lemma w_last_not_in : ~ In 1440 (stamps Z (prep_col zzero zlin id_est true w_bnds (mkedges 0 120) (w_rows 600) Temp)).
+Proof. apply not_in_by_existsb. vm_compute. reflexivity. Qed.
+Lemma w_first_not_in : ~ In 0 (stamps Z (prep_col zzero zlin id_est true w_bnds (mkedges 60 60) (w_rows 60) Temp)).
+Proof. apply not_in_by_existsb. vm_compute. reflexivity. Qed.
+
+(* a calendar whose second day starts 30 minutes off the hour grid of the first *)
+Definition s_bnds : list Z := [0; 1410; 2850].
+Definition s_rows : list (row Z) := [R 0 (Some 5) (Some 1) None; R 1470 (Some 9) (Some 2) None].
+Lemma s_ascending : ascending s_bnds.
+Proof. cbn. repeat split; intros b H; lia. Qed.
+Lemma s_covers : forall r, In r s_rows -> covers s_bnds (ts r).
+Proof.
+  intros r H. cbn in H. destruct H as [H | [H | []]]; subst r; split;
+    [exists 0 | exists 1410 | exists 1410 | exists 2850]; cbn; split; auto; lia.
+Qed.
+Lemma s_supplied : supplied zzero true s_rows 1470 Temp = Some 9.
+Proof. reflexivity. Qed.
+Lemma s_dropped : ~ In 1470 (stamps Z (prep_col zzero zlin id_est true s_bnds no_skip s_rows Temp)).
+Proof. apply not_in_by_existsb. vm_compute. reflexivity. Qed.
+Lemma s_filled : In (1440, Some 5, true) (prep_col zzero zlin id_est true s_bnds no_skip s_rows Temp).
+Proof. apply in_by_t3. vm_compute. reflexivity. Qed.
